@@ -1,5 +1,5 @@
 #!/usr/bin/env python3
-"""usage: tools/mk_seeded_meta.py r2|r3|r4|r5|r6
+"""usage: tools/mk_seeded_meta.py r2|r3|r4|r5|r6|r7
 Writes seeded/<id>-<round>m<n>/meta.json for the seeded changes of that round from the sub-agents' notes
 (heading = the change, "Needs" paragraph = what it takes to manifest) and the evaluation results."""
 import json, os, re, sys
@@ -16,10 +16,16 @@ C15-r4m2 C15-r4m3 C16-r4m3 C17-r4m2 C18-r4m1
 C03-r5m1 C06-r5m1 C06-r5m2 C07-r5m3 C08-r5m3 C09-r5m1 C09-r5m2 C11-r5m2 C13-r5m2 C14-r5m2 C14-r5m3 C15-r5m1 C15-r5m3 C16-r5m1 C18-r5m1
 C01-r6m3 C04-r6m2 C04-r6m3 C05-r6m1 C05-r6m3 C07-r6m1 C07-r6m3 C08-r6m2 C08-r6m3 C09-r6m3 C12-r6m1 C14-r6m2 C14-r6m3 C15-r6m1 C15-r6m3 C16-r6m1 C16-r6m2 C16-r6m3
 C17-r6m1 C17-r6m2 C18-r6m1 C18-r6m2 C18-r6m3
+C02-r7m1 C04-r7m1 C05-r7m3 C06-r7m1 C06-r7m2 C06-r7m3 C07-r7m1 C07-r7m2 C07-r7m3 C08-r7m2 C08-r7m3 C09-r7m3 C11-r7m1 C11-r7m2 C12-r7m3 C13-r7m1 C13-r7m3
+C14-r7m1 C15-r7m1 C15-r7m3 C16-r7m2 C17-r7m3 C18-r7m1
 '''.split())
 # not evaluated before the workloads were extended (evaluation harness interrupted): first-pass status unknown
 FIRST_PASS_UNKNOWN = set('C10-r3m1 C10-r3m2 C10-r3m3 C12-r3m1 C12-r3m2'.split())
-DETECTED_ELSEWHERE = {}       # name -> text, for changes reported by another property's check
+DETECTED_ELSEWHERE = {
+    'C02-r7m1': {'C06 quick tier': 'VIOLATION (exit 1)', 'C11 quick tier': 'VIOLATION (exit 1)', 'C02': 'not applicable: the change makes an illegal program acceptable; C02 only judges the behaviour of legal programs'},
+    'C07-r7m1': {'none': 'the documentation does not say what `<array variable> is T[]` yields; not decided by the property (see DESIGN.md 14.6)'},
+    'C12-r7m3': {'none': 'white space and identifier characters beyond ASCII are outside the domain the C12 check claims (see its assumptions and DESIGN.md 14.6)'},
+}       # name -> text, for changes reported by another property's check
 NEEDS = re.compile(r'^\W*(what it )?needs', re.I)
 
 for prop in [f'C{i:02d}' for i in range(1, 19)]:
